@@ -155,6 +155,10 @@ func genC03(rng *rand.Rand) SrvCase {
 		switch k := rng.Intn(12); {
 		case k < 8:
 			o := SOp{Kind: "create", Dir: "/", Name: "t", How: uint32(rng.Intn(3))}
+			if rng.Intn(6) == 0 {
+				// a legal name that only differs from the taken one by surrounding white space: its own object
+				o.Name = []string{"t ", " t", "t\t", " t ", "t  "}[rng.Intn(5)]
+			}
 			if o.How == 2 {
 				o.Verf = verf()
 			} else {
